@@ -73,6 +73,74 @@ theorem rowScale_apx (R : RoundedOps K) (n e : ℕ) (At : M (Fl R)) (A : M K) (k
   intro t ht
   exact ⟨hA k (k+1+t) hk (by omega) (by omega), h k (k+1+t) hk (by omega) (by omega)⟩
 
+/-- one elimination step, for ANY rounded pivot-row sum `st` carrying `e+m` factors: the column below the pivot gets `2e+m+1` factors, everything
+    `3e+m+3`, with `m = n-(k+1)` the length of the pivot row's active part -/
+theorem redStep_apx_gen (R : RoundedOps K) (n e : ℕ) (At : M (Fl R)) (A : M K) (k : ℕ) (hk : k < n)
+    (hA : OffNonneg n A) (h : ApxOff R n e At A) (hs : 0 < rowScale n A k) (st : Fl R)
+    (hsa : Apx R.u (e + (n - (k+1))) st.val (rowScale n A k)) :
+    (∀ i, k < i → i < n →
+        Apx R.u (2 * e + (n - (k+1)) + 1)
+          ((redStep n At k (st)).get i k).val ((redStep n A k (rowScale n A k)).get i k))
+    ∧ ApxOff R n (3 * e + (n - (k+1)) + 3)
+        (redStep n At k (st)) (redStep n A k (rowScale n A k)) := by
+  set m := n - (k+1) with hm
+  have hu := R.u_nonneg
+  have hst : 0 < (st).val := apx_pos hu hsa hs
+  have hcol : ∀ i, k < i → i < n →
+      0 ≤ A.get i k / rowScale n A k ∧
+      Apx R.u (2 * e + m + 1) (At.get i k / st).val (A.get i k / rowScale n A k) := by
+    intro i hki hin
+    have ha0 := hA i k hin hk (by omega)
+    have haa := h i k hin hk (by omega)
+    have hat0 := apx_nonneg hu haa ha0
+    have hd := apx_div hu ha0 hs haa hsa
+    have hr := R.fdiv_spec _ _ hat0 hst
+    rw [Fl.div_val]
+    refine ⟨div_nonneg ha0 hs.le, ?_⟩
+    have := apx_trans hu hr hd
+    have e1 : e + (e + m) + 1 = 2 * e + m + 1 := by omega
+    rw [e1] at this; exact this
+  constructor
+  · intro i hki hin
+    rw [redStep_get' n At k _ i k hin hk, redStep_get' n A k _ i k hin hk, if_pos hki, if_pos hki,
+      if_pos rfl, if_pos rfl]
+    exact (hcol i hki hin).2
+  · intro i j hin hjn hij
+    rw [redStep_get' n At k _ i j hin hjn, redStep_get' n A k _ i j hin hjn]
+    by_cases hki : k < i
+    · rw [if_pos hki, if_pos hki]
+      by_cases hjk : j = k
+      · rw [if_pos hjk, if_pos hjk]
+        exact apx_mono hu (by omega) (hcol i hki hin).1 (hcol i hki hin).2
+      · rw [if_neg hjk, if_neg hjk]
+        by_cases hkj : k < j
+        · rw [if_pos hkj, if_pos hkj]
+          obtain ⟨hc0, hca⟩ := hcol i hki hin
+          have hkj0 := hA k j hk hjn (by omega)
+          have hkja := h k j hk hjn (by omega)
+          have hij0 := hA i j hin hjn hij
+          have hija := h i j hin hjn hij
+          have hct0 := apx_nonneg hu hca hc0
+          have hkjt0 := apx_nonneg hu hkja hkj0
+          have hijt0 := apx_nonneg hu hija hij0
+          -- product
+          have hp := apx_mul hu hc0 hkj0 hca hkja
+          have hpr := R.fmul_spec _ _ hct0 hkjt0
+          have hprod := apx_trans hu hpr hp
+          have hprod0 : 0 ≤ A.get i k / rowScale n A k * A.get k j := mul_nonneg hc0 hkj0
+          have hprodt0 := apx_nonneg hu hprod hprod0
+          -- sum
+          have hsum := apx_add (apx_mono hu (show e ≤ 2 * e + m + 1 + e + 1 by omega) hij0 hija) hprod
+          have hsr := R.fadd_spec _ _ hijt0 hprodt0
+          have := apx_trans hu hsr hsum
+          rw [Fl.add_val, Fl.mul_val]
+          have e1 : 2 * e + m + 1 + e + 1 + 1 = 3 * e + m + 3 := by omega
+          rw [e1] at this; exact this
+        · rw [if_neg hkj, if_neg hkj]
+          exact apx_mono hu (by omega) (hA i j hin hjn hij) (h i j hin hjn hij)
+    · rw [if_neg hki, if_neg hki]
+      exact apx_mono hu (by omega) (hA i j hin hjn hij) (h i j hin hjn hij)
+
 /-- one elimination step: the column below the pivot gets `2e+m+1` factors, everything
     `3e+m+3`, with `m = n-(k+1)` the length of the pivot row's active part -/
 theorem redStep_apx (R : RoundedOps K) (n e : ℕ) (At : M (Fl R)) (A : M K) (k : ℕ) (hk : k < n)
